@@ -138,7 +138,7 @@ def decide(prop, tier, seed=0, use_cache=True, out=sys.stdout):
     rc = 0
     downgrade = []
     twin_names = [h for h, i in cfg["harnesses"].items() if prop in i.get("props", []) and i.get("level") != "complete"]
-    need_twins = bool(violations and any(v["engine"] == "verus" for v in violations)) or bool(aux_fail) or any(u[1] in ("extract-error", "compile-error") for u in undecided_units)
+    need_twins = bool(violations and any(v["engine"] == "verus" for v in violations)) or bool(aux_fail) or any(u[1] in ("extract-error", "compile-error", "tool-error") for u in undecided_units)
     twin_res = None
     if need_twins and twin_names:
         run_now = [h for h in twin_names if h not in kres["harnesses"]]
@@ -159,14 +159,15 @@ def decide(prop, tier, seed=0, use_cache=True, out=sys.stdout):
                     violations.append({"name": name, "kind": "kani-check", "class": "semantic", "engine": "kani", "harness": h, "message": fc["desc"],
                                        "src_file": fc["file"], "src_line": fc["line"], "fn": fc["fn"], "level": cfg["harnesses"][h].get("level")})
     have_kani_cex = any(v["engine"] == "kani" for v in violations)
+    twin_ok = bool(twin_names) and all(((twin_res or {}).get("harnesses", {}).get(h) or kres["harnesses"].get(h) or {}).get("status") == "success" for h in twin_names)
     # auxiliary-only failures
     if aux_fail and not violations:
-        if twin_names and not have_kani_cex:
+        if twin_ok and not have_kani_cex:
             downgrade += ["proof not re-established: %s; bounded twin harnesses clean (%s)" % (a["name"], ", ".join(twin_names)) for a in aux_fail]
-        elif not twin_names:
+        else:
             for a in aux_fail:
                 if not known_match(prop, a["name"], known):
-                    violations.append(dict(a, note="auxiliary obligation (invariant/proof step) that is discharged on the unchanged tree now fails and no bounded twin exists"))
+                    violations.append(dict(a, note="auxiliary obligation (invariant/proof step) that is discharged on the unchanged tree now fails; no bounded twin harness settled it"))
     for f, k in findings:
         lines.append("KNOWN-FINDING: property=%s %s [%s]" % (prop, k.get("what_fails", ""), f["name"]))
     for v in violations:
@@ -193,7 +194,7 @@ def decide(prop, tier, seed=0, use_cache=True, out=sys.stdout):
         lines.append("VIOLATION property=%s replay=%s%s" % (prop, path, suffix))
         rc = 1
     if rc == 0:
-        hard = [u for u in undecided_units if not (u[1] in ("extract-error", "compile-error") and twin_names and not have_kani_cex)]
+        hard = [u for u in undecided_units if not (u[1] in ("extract-error", "compile-error", "tool-error") and twin_names and not have_kani_cex and twin_ok)]
         soft = [u for u in undecided_units if u not in hard]
         for u in soft:
             downgrade.append("unit %s not verifiable on this tree (%s: %s); bounded twin harnesses clean (%s)" % (u[0], u[1], "; ".join(map(str, u[2]))[:300], ", ".join(twin_names)))
